@@ -300,7 +300,7 @@ fn pool_and_pcap(ctx: &mut Ctx, r: &mut Rng, t: u64, trace: &[TFrame], cfg: &Cfg
                 refused += 1;
             }
         }
-        let drained = pool::wait_processed(queued, Duration::from_secs(30));
+        let drained = h.wait_drain(queued, Duration::from_secs(30)) != pool::Drain::Stalled;
         let results = h.drain_results();
         h.shutdown();
         // the TLS pool refuses frames it cannot hash; those are frames the analyzer cannot attribute either
